@@ -206,7 +206,6 @@ func WorkerMain(engines map[string]func() Engine) {
 		if res.Violation == nil {
 			continue
 		}
-		violating++
 		if violating > 12 {
 			break // the tree is clearly broken; enough witnesses
 		}
@@ -231,6 +230,7 @@ func WorkerMain(engines map[string]func() Engine) {
 			}
 			continue
 		}
+		violating++
 		if seenSig[fr.Violation.Signature] {
 			continue
 		}
